@@ -43,6 +43,8 @@ ATTACKS = {
                                 "Orphans": "TRUE", "G_CommitMonotone": "FALSE"}, ["Inv_C19"])],
     "FixD14": [("a", {"Node": "{n1, n2}", "InitVoters": "{n1}", "MaxTerm": 2, "MaxLog": 6, "MaxInflight": 1, "MaxElections": 1, "MaxCmds": 2, "MaxCfgReqs": 1,
                       "EdAddPromote": "{n2}", "RoundFastSet": "{TRUE, FALSE}", "FixD14": "FALSE"}, ["Inv_C11"])],
+    "G_ReadAfterCommit": [("a", {"Node": "{n1, n2}", "InitVoters": "{n1, n2}", "MaxTerm": 2, "MaxLog": 4, "MaxInflight": 1, "MaxElections": 1, "MaxCmds": 3,
+                                 "TrackClients": "TRUE", "ClientOps": '{"update", "read"}', "EagerFsm": "TRUE", "G_ReadAfterCommit": "FALSE"}, ["Inv_C07"])],
     # leadership transfer (2 voters: the smallest cluster in which a transfer is possible)
     "G_XferCaughtUp": [("a", dict(X2, G_XferCaughtUp="FALSE"), ["Inv_C16"])],
     "G_XferBlocksEntries": [("a", dict(X2, G_XferBlocksEntries="FALSE", MaxCmds=2), ["Inv_C16"])],
